@@ -63,6 +63,11 @@ def _hwval(v):
     return 'x' if v == X else v
 
 
+def _arg(v):
+    """a value handed to a hardware function: it has been converted by the datatype, i.e. it is an int"""
+    return v if type(v) is int else repr(v)  # pylint: disable=unidiomatic-typecheck
+
+
 # ------------------------------------------------------------------ alpha: error labels
 
 def _elabel(exc):
@@ -124,14 +129,14 @@ def _mkfunc(d):
             return 1 if md == 'ret' else None
     elif kind == 'W':
         def f(self, pname, value):
-            self._calls.append({'fn': fn, 'k': pname, 'args': [value]})
+            self._calls.append({'fn': fn, 'k': pname, 'args': [_arg(value)]})
             md = fault(self)
             self._hw[pname] = min(value, CAP)
             return None if md == 'none' else self._hw[pname]
     elif kind == 'CW':
         def f(self, values):
             vals = values.as_tuple(*keys)
-            self._calls.append({'fn': fn, 'k': '*', 'args': list(vals)})
+            self._calls.append({'fn': fn, 'k': '*', 'args': [_arg(v) for v in vals]})
             md = fault(self)
             for k, v in zip(keys, vals):
                 self._hw[k] = min(v, CAP)
@@ -155,7 +160,7 @@ def _mkfunc(d):
         k = keys[0]
 
         def f(self, value):
-            self._calls.append({'fn': fn, 'k': k, 'args': [value]})
+            self._calls.append({'fn': fn, 'k': k, 'args': [_arg(value)]})
             md = fault(self)
             self._hw[k] = min(value, CAP)
             if md == 'done':
@@ -421,7 +426,8 @@ class World:
             k = a['key']
             if direct:
                 try:
-                    v = m.__getattribute__('read_' + k)() if act == 'read' else m.__getattribute__('write_' + k)(a['val'])
+                    # a driver may hand over any number: the wrapper converts it before the hardware function sees it
+                    v = getattr(m, 'read_' + k)() if act == 'read' else getattr(m, 'write_' + k)(float(a['val']))
                     res = {'ok': True, 'v': v, 'e': 'none'}
                 except Exception as e:  # pylint: disable=broad-except
                     res = {'ok': False, 'v': 0, 'e': _elabel(e)}
@@ -479,6 +485,8 @@ def run_steps(steps, compare=True):
     try:
         for j, st in enumerate(steps):
             act = st['act']
+            if act != 'define' and not w.mods:
+                break                    # the classes were refused (the disagreement is recorded at the define step)
             if act == 'define':
                 obs = w.define(st['lay'])
             elif act == 'start':
